@@ -694,6 +694,24 @@ func c07Gen(r *vu.RNG, n int, emit0 func(string)) {
 				emit(fmt.Sprintf("hdr %x %x", v, l))
 			}
 		}
+	} else {
+		// every length up to 1100, every run boundary m+255k (and its neighbours), the top of the range
+		for v := 0; v < 5; v++ {
+			m := []int{63, 63, 63, 31, 15}[v]
+			for l := 0; l <= 1100; l++ {
+				emit(fmt.Sprintf("hdr %x %x", v, l))
+			}
+			for k := 4; m+255*k <= 65535; k++ {
+				for d := -1; d <= 1; d++ {
+					if l := m + 255*k + d; l <= 65535 {
+						emit(fmt.Sprintf("hdr %x %x", v, l))
+					}
+				}
+			}
+			for _, l := range []int{32766, 32767, 32768, 32769, 65279, 65280, 65281, 65533} {
+				emit(fmt.Sprintf("hdr %x %x", v, l))
+			}
+		}
 	}
 	// --- partial key length boundaries through Encode/Decode
 	rk := r.Fork()
